@@ -420,7 +420,7 @@ Definition step_ok (m : mst) (s : st) (o : op) : Prop :=
   snd (mon m o (snd (step s o))) = [] /\ Inv (fst (mon m o (snd (step s o)))) (fst (step s o)).
 
 Definition plain (o : op) : bool :=
-  match o with Inbound _ _ | AddRespCb _ _ _ _ | AddResultCb _ _ _ => false | _ => true end.
+  match o with Inbound _ _ | AddRespCb _ _ _ _ | AddResultCb _ _ _ | ParArrive _ _ _ _ => false | _ => true end.
 
 Lemma plain_facts s o : plain o = true -> vsame s (fst (step s o)) /\ existsb is_invoke (snd (step s o)) = false.
 Proof.
@@ -449,71 +449,105 @@ Proof.
   eapply Inv_vsame; eauto.
 Qed.
 
+Lemma inbound_sub m s p d : Inv m s ->
+  snd (mon_inbound m p d) = inv (snd (step s (Inbound p d))) /\
+  Inv (fst (mon_inbound m p d)) (fst (step s (Inbound p d))).
+Proof.
+  intros HI. pose proof HI as [Hw [H1 H2]]. unfold mon_inbound, target_of.
+  rewrite Hw. unfold step. cbn [step_v].
+  destruct (find_peer s p) as [pe|] eqn:Hp.
+  2:{ cbn [fst snd]. split; [reflexivity|]. eapply Inv_vsame; eauto; [apply vsame_refl|]. unfold step. cbn [step_v]. rewrite Hp. reflexivity. }
+  pose proof (find_peer_ski _ _ _ Hp) as Hk. subst p.
+  assert (Hnone : forall out s', process_cmd repaired s pe d = (s', out) -> vsame s s' -> inv out = [] ->
+            snd (advance m (Inbound (p_ski pe) d) (pending m) (resultcbs m), @nil obs) = inv out /\
+            Inv (fst (advance m (Inbound (p_ski pe) d) (pending m) (resultcbs m), @nil obs)) s').
+  { intros out s' Hs Hv Hno. cbn [fst snd]. rewrite Hno. split; [reflexivity|].
+    eapply Inv_vsame; eauto. unfold step. cbn [step_v]. rewrite Hp, Hs. reflexivity. }
+  destruct (remote_feature pe (d_src d)) as [[en rf]|] eqn:Hsrc.
+  2:{ destruct (process_cmd repaired s pe d) as [s' out] eqn:Hs. cbn [fst snd]. apply (Hnone out s' eq_refl);
+        unfold process_cmd in Hs; rewrite Hsrc in Hs; injection Hs as <- <-; [apply vsame_refl | reflexivity]. }
+  destruct (local_feature s (d_dst d)) as [lf|] eqn:Hl.
+  2:{ destruct (process_cmd repaired s pe d) as [s' out] eqn:Hs. cbn [fst snd]. apply (Hnone out s' eq_refl);
+        unfold process_cmd in Hs; rewrite Hsrc, Hl in Hs; destruct (_ && _); injection Hs as <- <-;
+        try apply vsame_refl; reflexivity. }
+  pose proof (process_cmd_handled s pe en rf lf d Hp Hsrc Hl) as Hh.
+  pose proof (found_local _ _ _ Hl) as Hf.
+  destruct (process_cmd repaired s pe d) as [s' out] eqn:Hs. cbn [fst snd] in *.
+  destruct (delivers s pe en rf lf d) as [[[r data] res]|] eqn:Hd; unfold handled in Hh; cbn [fst snd] in Hh.
+  2:{ destruct Hh as [Hv Hi]. apply (Hnone out s' eq_refl Hv Hi). }
+  destruct Hh as [[V1 V2] Hi]. cbn [fst snd]. split.
+  + rewrite Hi. unfold expected_invokes. rewrite H1, H2. unfold view_r, view_q.
+    unfold found in Hf. rewrite Hf. reflexivity.
+  + unfold advance. split; [cbn [w]; rewrite Hw; unfold step; cbn [step_v]; rewrite Hp, Hs; reflexivity|].
+    cbn [pending resultcbs]. split.
+    * intros e f c. rewrite cbs_of_used_up, V1, H1. unfold is_key. reflexivity.
+    * intros e f. rewrite H2, V2. reflexivity.
+Qed.
+
 Lemma inbound_ok m s p d : Inv m s -> step_ok m s (Inbound p d).
 Proof.
-  intros HI. pose proof HI as [Hw [H1 H2]]. unfold step_ok, mon.
-rewrite Hw. unfold step. cbn [step_v].
-destruct (find_peer s p) as [pe|] eqn:Hp.
-2:{ cbn [fst snd]. split; [reflexivity|]. eapply Inv_vsame; eauto; [apply vsame_refl|]. unfold step. cbn [step_v]. rewrite Hp. reflexivity. }
-pose proof (find_peer_ski _ _ _ Hp) as Hk. subst p.
-assert (Hnone : forall out s', process_cmd repaired s pe d = (s', out) -> vsame s s' -> inv out = [] ->
-          snd (advance m (Inbound (p_ski pe) d) (pending m) (resultcbs m), check (negb (existsb is_invoke out)) CL_INVOKE) = [] /\
-          Inv (fst (advance m (Inbound (p_ski pe) d) (pending m) (resultcbs m), check (negb (existsb is_invoke out)) CL_INVOKE)) s').
-{ intros out s' Hs Hv Hno. cbn [fst snd]. rewrite (inv_nil_no_invokes _ Hno). split; [reflexivity|].
-  eapply Inv_vsame; eauto. unfold step. cbn [step_v]. rewrite Hp, Hs. reflexivity. }
-destruct (remote_feature pe (d_src d)) as [[en rf]|] eqn:Hsrc.
-2:{ destruct (process_cmd repaired s pe d) as [s' out] eqn:Hs. cbn [fst snd]. apply (Hnone out s' eq_refl);
-      unfold process_cmd in Hs; rewrite Hsrc in Hs; injection Hs as <- <-; [apply vsame_refl | reflexivity]. }
-destruct (local_feature s (d_dst d)) as [lf|] eqn:Hl.
-2:{ destruct (process_cmd repaired s pe d) as [s' out] eqn:Hs. cbn [fst snd]. apply (Hnone out s' eq_refl);
-      unfold process_cmd in Hs; rewrite Hsrc, Hl in Hs; destruct (_ && _); injection Hs as <- <-;
-      try apply vsame_refl; reflexivity. }
-pose proof (process_cmd_handled s pe en rf lf d Hp Hsrc Hl) as Hh.
-pose proof (found_local _ _ _ Hl) as Hf.
-destruct (process_cmd repaired s pe d) as [s' out] eqn:Hs. cbn [fst snd] in *.
-destruct (delivers s pe en rf lf d) as [[[r data] res]|] eqn:Hd; unfold handled in Hh; cbn [fst snd] in Hh.
-2:{ destruct Hh as [Hv Hi]. apply (Hnone out s' eq_refl Hv Hi). }
-destruct Hh as [[V1 V2] Hi]. cbn [fst snd]. split.
-+ fold (inv out). rewrite Hi. unfold expected_invokes. rewrite H1, H2. unfold view_r, view_q.
-  unfold found in Hf. rewrite Hf.
-  change (fun cb : N => OInvoke cb (lf_ent lf) (lf_id lf) r (p_ski pe) (re_addr en) (rf_id rf) data)
-    with (mk_invoke lf r (p_ski pe) en rf data).
-  rewrite same_multiset_refl; [reflexivity|]. rewrite <- Hi. apply forallb_inv.
-+ unfold advance. split; [cbn [w]; rewrite Hw; unfold step; cbn [step_v]; rewrite Hp, Hs; reflexivity|].
-  cbn [pending resultcbs]. split.
-  * intros e f c. rewrite cbs_of_used_up, V1, H1. unfold is_key. reflexivity.
-  * intros e f. rewrite H2, V2. reflexivity.
+  intros HI. destruct (inbound_sub m s p d HI) as [He HI1]. unfold step_ok, mon.
+  destruct (mon_inbound m p d) as [m1 ex]. cbn [fst snd] in *. split; [|exact HI1].
+  subst ex. fold (inv (snd (step s (Inbound p d)))). rewrite same_multiset_refl; [reflexivity | apply forallb_inv].
+Qed.
+
+Definition rets (out : list obs) : list obs := filter is_ret out.
+
+Lemma addresp_sub m s e f ctr cb : Inv m s ->
+  snd (mon_addresp m e f ctr cb) = rets (snd (step s (AddRespCb e f ctr cb))) /\
+  inv (snd (step s (AddRespCb e f ctr cb))) = [] /\
+  Inv (fst (mon_addresp m e f ctr cb)) (fst (step s (AddRespCb e f ctr cb))).
+Proof.
+  intros HI. pose proof HI as [Hw [H1 H2]]. unfold mon_addresp.
+  rewrite Hw. rewrite find_lfeat_find. unfold step. cbn [step_v]. rewrite find_lfeat_find.
+  destruct (find (is_feat e f) (lfeats s)) as [lf|] eqn:Hf.
+  2:{ cbn [fst snd]. split; [reflexivity|]. split; [reflexivity|]. eapply Inv_vsame; eauto; [apply vsame_refl|].
+      unfold step. cbn [step_v]. rewrite find_lfeat_find, Hf. reflexivity. }
+  assert (Hc : cbs_of (pending m) e f ctr = match assoc_N ctr (lf_rcb lf) with Some l => l | None => [] end).
+  { rewrite H1. unfold view_r. rewrite Hf. reflexivity. }
+  rewrite Hc. set (cbs := match assoc_N ctr (lf_rcb lf) with Some l => l | None => [] end) in *.
+  destruct (memN cb cbs) eqn:Hdup; cbn [fst snd negb].
+  + split; [reflexivity|]. split; [reflexivity|]. eapply Inv_vsame; eauto; [apply vsame_refl|].
+    unfold step. cbn [step_v]. rewrite find_lfeat_find, Hf. fold cbs. rewrite Hdup. reflexivity.
+  + split; [reflexivity|]. split; [reflexivity|]. unfold advance. split.
+    { cbn [w]. rewrite Hw. unfold step. cbn [step_v]. rewrite find_lfeat_find, Hf. fold cbs. rewrite Hdup. reflexivity. }
+    cbn [pending resultcbs]. split.
+    * intros e' f' c'. unfold cbs_of. rewrite filter_app, map_app. fold (cbs_of (pending m) e' f' c'). rewrite H1.
+      rewrite view_r_upd by (intros x; split; reflexivity). rewrite Hf. cbn [set_rcb lf_rcb filter].
+      change (on_key e' f' c' {| g_ent := e; g_feat := f; g_ctr := ctr; g_cb := cb |})
+        with (eqb_eaddr e e' && N.eqb f f' && N.eqb ctr c').
+      destruct (eqb_eaddr e e' && N.eqb f f') eqn:E; cbn [andb].
+      -- destruct (key_cases _ _ _ _ E) as [-> ->]. unfold view_r. rewrite Hf. unfold lookup at 2. cbn [assoc_N].
+         rewrite (N.eqb_sym c' ctr). destruct (N.eqb ctr c') eqn:Ec; cbn [map g_cb].
+         ++ apply N.eqb_eq in Ec. subst c'. unfold lookup. fold cbs. reflexivity.
+         ++ rewrite app_nil_r. unfold lookup. rewrite assoc_remove_other by (rewrite N.eqb_sym; exact Ec). reflexivity.
+      -- cbn [map]. apply app_nil_r.
+    * intros e' f'. rewrite H2. rewrite view_q_upd by (intros x; split; reflexivity).
+      destruct (eqb_eaddr e e' && N.eqb f f') eqn:E; [|reflexivity].
+      destruct (key_cases _ _ _ _ E) as [-> ->]. unfold view_q. rewrite Hf. reflexivity.
+Qed.
+
+Lemma eqb_obs_ret_refl o : is_ret o = true -> eqb_obs_ret o o = true.
+Proof. destruct o; try discriminate; intros _; cbn; [apply Bool.eqb_reflx | reflexivity]. Qed.
+
+Lemma same_rets_refl l : forallb is_ret l = true -> same_multiset eqb_obs_ret l l = true.
+Proof.
+  induction l as [|x l IH]; [reflexivity|]. cbn [forallb]. intros H. apply andb_true_iff in H. destruct H as [Ha Hb].
+  cbn [same_multiset remove_first]. rewrite (eqb_obs_ret_refl x Ha). apply IH. exact Hb.
+Qed.
+
+Lemma forallb_rets out : forallb is_ret (rets out) = true.
+Proof.
+  induction out as [|o out IH]; [reflexivity|]. unfold rets. cbn [filter]. destruct (is_ret o) eqn:E; [|exact IH].
+  cbn [forallb]. rewrite E. exact IH.
 Qed.
 
 Lemma addresp_ok m s e f ctr cb : Inv m s -> step_ok m s (AddRespCb e f ctr cb).
 Proof.
-  intros HI. pose proof HI as [Hw [H1 H2]]. unfold step_ok, mon.
-rewrite Hw. rewrite find_lfeat_find. unfold step. cbn [step_v]. rewrite find_lfeat_find.
-destruct (find (is_feat e f) (lfeats s)) as [lf|] eqn:Hf.
-2:{ cbn [fst snd]. split; [reflexivity|]. eapply Inv_vsame; eauto; [apply vsame_refl|].
-    unfold step. cbn [step_v]. rewrite find_lfeat_find, Hf. reflexivity. }
-assert (Hc : cbs_of (pending m) e f ctr = match assoc_N ctr (lf_rcb lf) with Some l => l | None => [] end).
-{ rewrite H1. unfold view_r. rewrite Hf. reflexivity. }
-rewrite Hc. set (cbs := match assoc_N ctr (lf_rcb lf) with Some l => l | None => [] end) in *.
-destruct (memN cb cbs) eqn:Hdup; cbn [fst snd negb].
-+ split; [reflexivity|]. eapply Inv_vsame; eauto; [apply vsame_refl|].
-  unfold step. cbn [step_v]. rewrite find_lfeat_find, Hf. fold cbs. rewrite Hdup. reflexivity.
-+ split; [reflexivity|]. unfold advance. split.
-  { cbn [w]. rewrite Hw. unfold step. cbn [step_v]. rewrite find_lfeat_find, Hf. fold cbs. rewrite Hdup. reflexivity. }
-  cbn [pending resultcbs]. split.
-  * intros e' f' c'. unfold cbs_of. rewrite filter_app, map_app. fold (cbs_of (pending m) e' f' c'). rewrite H1.
-    rewrite view_r_upd by (intros x; split; reflexivity). rewrite Hf. cbn [set_rcb lf_rcb filter].
-    change (on_key e' f' c' {| g_ent := e; g_feat := f; g_ctr := ctr; g_cb := cb |})
-      with (eqb_eaddr e e' && N.eqb f f' && N.eqb ctr c').
-    destruct (eqb_eaddr e e' && N.eqb f f') eqn:E; cbn [andb].
-    -- destruct (key_cases _ _ _ _ E) as [-> ->]. unfold view_r. rewrite Hf. unfold lookup at 2. cbn [assoc_N].
-       rewrite (N.eqb_sym c' ctr). destruct (N.eqb ctr c') eqn:Ec; cbn [map g_cb].
-       ++ apply N.eqb_eq in Ec. subst c'. unfold lookup. fold cbs. reflexivity.
-       ++ rewrite app_nil_r. unfold lookup. rewrite assoc_remove_other by (rewrite N.eqb_sym; exact Ec). reflexivity.
-    -- cbn [map]. apply app_nil_r.
-  * intros e' f'. rewrite H2. rewrite view_q_upd by (intros x; split; reflexivity).
-    destruct (eqb_eaddr e e' && N.eqb f f') eqn:E; [|reflexivity].
-    destruct (key_cases _ _ _ _ E) as [-> ->]. unfold view_q. rewrite Hf. reflexivity.
+  intros HI. destruct (addresp_sub m s e f ctr cb HI) as [He [Hi HI1]]. unfold step_ok, mon.
+  destruct (mon_addresp m e f ctr cb) as [m1 ex]. cbn [fst snd] in *. split; [|exact HI1].
+  subst ex. fold (rets (snd (step s (AddRespCb e f ctr cb)))). rewrite same_rets_refl by apply forallb_rets.
+  unfold no_invokes. rewrite (inv_nil_no_invokes _ Hi). reflexivity.
 Qed.
 
 Lemma addresult_ok m s e f cb : Inv m s -> step_ok m s (AddResultCb e f cb).
@@ -537,6 +571,137 @@ cbn [pending resultcbs]. split.
   * cbn [map]. apply app_nil_r.
 Qed.
 
+(* ---- overlapping arrivals ---- *)
+Lemma rets_app a b : rets (a ++ b) = rets a ++ rets b.
+Proof. apply filter_app. Qed.
+
+Lemma rets_invokes lf r p en rf v l : rets (map (mk_invoke lf r p en rf v) l) = [].
+Proof. induction l as [|x l IH]; [reflexivity | exact IH]. Qed.
+
+Lemma rets_response_cbs s lf r p en rf v : rets (snd (process_response_cbs s lf r (mk_invoke lf r p en rf v))) = [].
+Proof. unfold process_response_cbs. destruct (assoc_N r (lf_rcb lf)); cbn [snd]; [apply rets_invokes | reflexivity]. Qed.
+
+Lemma rets_process_result s p en rf lf d e : rets (snd (fst (process_result s p en rf lf d e))) = [].
+Proof.
+  unfold process_result. destruct (d_ref d) as [r|]; [|reflexivity].
+  pose proof (rets_response_cbs s lf r p en rf e) as H.
+  destruct (process_response_cbs s lf r _) as [s1 o1]. cbn [fst snd] in *. rewrite rets_app, H, rets_invokes. reflexivity.
+Qed.
+
+Lemma rets_fl_handle s p en rf lf d : rets (snd (fst (fl_handle s p en rf lf d))) = [].
+Proof.
+  unfold fl_handle. destruct (d_body d) as [e|c pl]; [apply rets_process_result|]. destruct c.
+  - destruct (eqb_role _ _); [reflexivity|]. destruct (negb _); reflexivity.
+  - destruct (negb _); [reflexivity|]. destruct (d_ref d) as [r|]; [|reflexivity].
+    pose proof (rets_response_cbs s lf r p en rf (pl_val pl)) as H.
+    destruct (process_response_cbs s lf r _) as [s1 o1]. exact H.
+  - destruct (negb _); reflexivity.
+  - unfold process_write. destruct (negb _); [reflexivity|]. destruct (d_ack d); reflexivity.
+  - reflexivity.
+Qed.
+
+Lemma rets_nm_dispatch s pe lf d c pl : rets (snd (fst (nm_dispatch s pe lf d c pl))) = [].
+Proof.
+  unfold nm_dispatch, err_general.
+  destruct pl; destruct c; try reflexivity;
+    match goal with |- context [reg_result ?r] => destruct r as [s1 e]; reflexivity end.
+Qed.
+
+Lemma rets_nm_handle s pe en rf lf d : rets (snd (fst (nm_handle true s pe en rf lf d))) = [].
+Proof.
+  unfold nm_handle. destruct (d_body d) as [e|c pl]; [apply rets_process_result|].
+  pose proof (rets_nm_dispatch s pe lf d c pl) as H.
+  destruct (nm_dispatch s pe lf d c pl) as [[s1 out] err]. cbn [fst snd] in H. unfold nm_reply_callbacks.
+  destruct err; [exact H|]. destruct c; try exact H. destruct (d_ref d) as [r|]; [|exact H].
+  pose proof (rets_response_cbs s1 lf r (p_ski pe) en rf (pl_val pl)) as H2.
+  destruct (process_response_cbs s1 lf r _) as [s2 o2]. cbn [fst snd] in *. rewrite rets_app, H, H2. reflexivity.
+Qed.
+
+Lemma rets_process_cmd s pe d : rets (snd (process_cmd repaired s pe d)) = [].
+Proof.
+  unfold process_cmd. destruct (remote_feature pe (d_src d)) as [[en rf]|]; [|reflexivity].
+  destruct (local_feature s (d_dst d)) as [lf|].
+  2:{ destruct (_ && _); reflexivity. }
+  destruct (negb _); [reflexivity|]. cbn [repaired v_nm_reply_cbs].
+  destruct (is_nm lf).
+  - pose proof (rets_nm_handle s pe en rf lf d) as H.
+    destruct (nm_handle true s pe en rf lf d) as [[s1 out] err]. cbn [fst snd] in H.
+    destruct err; cbn [snd]; rewrite rets_app, H; [destruct (is_result_body _) | destruct (_ && _)]; reflexivity.
+  - pose proof (rets_fl_handle s (p_ski pe) en rf lf d) as H.
+    destruct (fl_handle s (p_ski pe) en rf lf d) as [[s1 out] err]. cbn [fst snd] in H.
+    destruct err; cbn [snd]; rewrite rets_app, H; [destruct (is_result_body _) | destruct (_ && _)]; reflexivity.
+Qed.
+
+Lemma mon_ev_sub m s d e : Inv m s ->
+  snd (fst (mon_ev m d e)) = inv (snd (run_ev repaired s d e)) /\
+  snd (mon_ev m d e) = rets (snd (run_ev repaired s d e)) /\
+  Inv (fst (fst (mon_ev m d e))) (fst (run_ev repaired s d e)).
+Proof.
+  intros HI. destruct e as [p|cb]; cbn [mon_ev run_ev].
+  - destruct (inbound_sub m s p d HI) as [He HI1]. destruct (mon_inbound m p d) as [m1 ex]. cbn [fst snd] in *.
+    change (inbound_v repaired s p d) with (step s (Inbound p d)). split; [exact He|]. split; [|exact HI1].
+    (* an arrival reports no registration outcome *)
+    unfold step. cbn [step_v]. destruct (find_peer s p) as [pe|]; [|reflexivity].
+    symmetry. apply rets_process_cmd.
+  - unfold late_reg. destruct (d_ref d) as [r|]; [|cbn; (split; [reflexivity|]); (split; [reflexivity|]); exact HI].
+    destruct (fa_feat (d_dst d)) as [f|]; [|cbn; (split; [reflexivity|]); (split; [reflexivity|]); exact HI].
+    destruct (addresp_sub m s (fa_ent (d_dst d)) f r cb HI) as [He [Hi HI1]].
+    destruct (mon_addresp m (fa_ent (d_dst d)) f r cb) as [m1 ex]. cbn [fst snd] in *.
+    change (add_resp_cb s (fa_ent (d_dst d)) f r cb) with (step s (AddRespCb (fa_ent (d_dst d)) f r cb)).
+    split; [symmetry; exact Hi|]. split; [exact He | exact HI1].
+Qed.
+
+Lemma mon_evs_sub d l : forall m s, Inv m s ->
+  snd (fst (mon_evs m d l)) = inv (snd (run_evs repaired s d l)) /\
+  snd (mon_evs m d l) = rets (snd (run_evs repaired s d l)) /\
+  Inv (fst (fst (mon_evs m d l))) (fst (run_evs repaired s d l)).
+Proof.
+  induction l as [|e r IH]; intros m s HI; [cbn; (split; [reflexivity|]); (split; [reflexivity|]); exact HI|].
+  cbn [mon_evs run_evs]. destruct (mon_ev_sub m s d e HI) as [E1 [E2 HI1]].
+  destruct (mon_ev m d e) as [[m1 i1] r1]. destruct (run_ev repaired s d e) as [s1 o1]. cbn [fst snd] in *.
+  destruct (IH m1 s1 HI1) as [F1 [F2 HI2]].
+  destruct (mon_evs m1 d r) as [[m2 i2] r2]. destruct (run_evs repaired s1 d r) as [s2 o2]. cbn [fst snd] in *.
+  subst. unfold inv, rets. rewrite !filter_app. (split; [reflexivity|]); (split; [reflexivity|]); exact HI2.
+Qed.
+
+Lemma blank_idem o : blank (blank o) = blank o.
+Proof. destruct o; reflexivity. Qed.
+
+Lemma inv_par_obs out : inv (par_obs out) = map blank (inv out).
+Proof.
+  induction out as [|o out IH]; [reflexivity|]. unfold par_obs. cbn [flat_map]. unfold inv. rewrite filter_app.
+  fold (par_obs out). fold (inv (par_obs out)). rewrite IH. destruct o; reflexivity.
+Qed.
+
+Lemma rets_par_obs out : rets (par_obs out) = rets out.
+Proof.
+  induction out as [|o out IH]; [reflexivity|]. unfold par_obs. cbn [flat_map]. unfold rets. rewrite filter_app.
+  fold (par_obs out). fold (rets (par_obs out)). rewrite IH. destruct o; reflexivity.
+Qed.
+
+Lemma forallb_blank l : forallb is_invoke l = true -> forallb is_invoke (map blank l) = true.
+Proof.
+  induction l as [|o l IH]; [reflexivity|]. cbn [forallb map]. intros H. apply andb_true_iff in H. destruct H as [Ha Hb].
+  rewrite (IH Hb). destruct o; try discriminate. reflexivity.
+Qed.
+
+Lemma par_ok m s ps d late pf : Inv m s -> step_ok m s (ParArrive ps d late pf).
+Proof.
+  intros HI. unfold step_ok, mon.
+  assert (Hst : step s (ParArrive ps d late pf) =
+                (fst (run_evs repaired s d (par_events ps late pf)), par_obs (snd (run_evs repaired s d (par_events ps late pf))))).
+  { unfold step. cbn [step_v]. destruct (run_evs repaired s d (par_events ps late pf)); reflexivity. }
+  rewrite Hst. clear Hst. cbn [fst snd].
+  destruct (mon_evs_sub d (par_events ps late pf) m s HI) as [E1 [E2 HI1]].
+  destruct (mon_evs m d (par_events ps late pf)) as [[m1 i1] r1].
+  destruct (run_evs repaired s d (par_events ps late pf)) as [s1 out]. cbn [fst snd] in *. split; [|exact HI1].
+  destruct (well_posed m d late pf); [|reflexivity].
+  fold (inv (par_obs out)). fold (rets (par_obs out)). rewrite inv_par_obs, rets_par_obs. subst i1 r1.
+  rewrite map_map. rewrite (map_ext _ _ blank_idem).
+  rewrite same_multiset_refl by (apply forallb_blank, forallb_inv).
+  rewrite same_rets_refl by apply forallb_rets. reflexivity.
+Qed.
+
 Lemma mon_step_ok m s o :
   Inv m s ->
   snd (mon m o (snd (step s o))) = [] /\ Inv (fst (mon m o (snd (step s o)))) (fst (step s o)).
@@ -545,6 +710,7 @@ Proof.
   - apply inbound_ok; exact HI.
   - apply addresp_ok; exact HI.
   - apply addresult_ok; exact HI.
+  - apply par_ok; exact HI.
 Qed.
 
 (* ------------------------------------------------------------------ whole histories *)
@@ -602,4 +768,371 @@ Proof.
   intros Hp Hsrc Hl Hd. pose proof (process_cmd_handled s pe en rf lf d Hp Hsrc Hl) as Hh.
   rewrite Hd in Hh. unfold handled in Hh. cbn [fst snd] in Hh. destruct Hh as [[V1 _] _].
   unfold step. cbn [step_v]. rewrite Hp. rewrite V1. unfold is_key. rewrite eqb_eaddr_refl, !N.eqb_refl. reflexivity.
+Qed.
+
+(* ------------------------------------------------------------------ overlapping arrivals: any interleaving *)
+From Coq Require Import Sorting.Permutation.
+
+Definition regs (l : list ev) : list N := flat_map (fun e => match e with EReg cb => [cb] | _ => [] end) l.
+Definition arrivals (l : list ev) : list N := flat_map (fun e => match e with EArr p => [p] | _ => [] end) l.
+
+(* the part of the state an arrival of a result or data reply, and a registration, leave alone *)
+Definition frame (s : st) := (peers s, lents s).
+
+Lemma frame_response_cbs s lf r mk : frame (fst (process_response_cbs s lf r mk)) = frame s.
+Proof. unfold process_response_cbs. destruct (assoc_N r (lf_rcb lf)); reflexivity. Qed.
+
+Lemma frame_process_result s p en rf lf d e : frame (fst (fst (process_result s p en rf lf d e))) = frame s.
+Proof.
+  unfold process_result. destruct (d_ref d) as [r|]; [|reflexivity].
+  pose proof (frame_response_cbs s lf r (mk_invoke lf r p en rf e)) as H.
+  destruct (process_response_cbs s lf r _) as [s1 o1]. exact H.
+Qed.
+
+Lemma frame_fl_handle s p en rf lf d : frame (fst (fst (fl_handle s p en rf lf d))) = frame s.
+Proof.
+  unfold fl_handle. destruct (d_body d) as [e|c pl]; [apply frame_process_result|]. destruct c.
+  - destruct (eqb_role _ _); [reflexivity|]. destruct (negb _); reflexivity.
+  - destruct (negb _); [reflexivity|]. destruct (d_ref d) as [r|]; [|reflexivity].
+    pose proof (frame_response_cbs s lf r (mk_invoke lf r p en rf (pl_val pl))) as H.
+    destruct (process_response_cbs s lf r _) as [s1 o1]. exact H.
+  - destruct (negb _); reflexivity.
+  - unfold process_write. destruct (negb _); reflexivity.
+  - reflexivity.
+Qed.
+
+Lemma frame_nm_handle_quiet s pe en rf lf d :
+  quiet_body (d_body d) = true -> frame (fst (fst (nm_handle true s pe en rf lf d))) = frame s.
+Proof.
+  intros Hq. unfold nm_handle. destruct (d_body d) as [e|c pl]; [apply frame_process_result|].
+  destruct c; try discriminate Hq. destruct pl; try discriminate Hq; cbn [nm_dispatch nm_reply_callbacks]; try reflexivity.
+  destruct (d_ref d) as [r|]; [|reflexivity].
+  pose proof (frame_response_cbs s lf r (mk_invoke lf r (p_ski pe) en rf (pl_val (PUseCase v)))) as H.
+  destruct (process_response_cbs s lf r _) as [s1 o1]. exact H.
+Qed.
+
+Lemma frame_process_cmd_quiet s pe d :
+  quiet_body (d_body d) = true -> frame (fst (process_cmd repaired s pe d)) = frame s.
+Proof.
+  intros Hq. unfold process_cmd. destruct (remote_feature pe (d_src d)) as [[en rf]|]; [|reflexivity].
+  destruct (local_feature s (d_dst d)) as [lf|].
+  2:{ destruct (_ && _); reflexivity. }
+  destruct (negb _); [reflexivity|]. cbn [repaired v_nm_reply_cbs].
+  destruct (is_nm lf).
+  - pose proof (frame_nm_handle_quiet s pe en rf lf d Hq) as H.
+    destruct (nm_handle true s pe en rf lf d) as [[s1 out] err]. destruct err; exact H.
+  - pose proof (frame_fl_handle s (p_ski pe) en rf lf d) as H.
+    destruct (fl_handle s (p_ski pe) en rf lf d) as [[s1 out] err]. destruct err; exact H.
+Qed.
+
+Lemma local_feature_key s a lf : local_feature s a = Some lf -> fa_ent a = lf_ent lf /\ fa_feat a = Some (lf_id lf).
+Proof.
+  unfold local_feature. destruct (existsb _ (lents s)); [|discriminate].
+  unfold find_lfeat. destruct (fa_feat a) as [f|]; [|discriminate]. intros H.
+  pose proof (find_some _ _ H) as [_ Hk]. unfold is_feat in Hk. apply andb_true_iff in Hk. destruct Hk as [H1 H2].
+  apply eqb_eaddr_eq in H1. apply N.eqb_eq in H2. split; [symmetry; exact H1 | rewrite H2; reflexivity].
+Qed.
+
+Lemma remote_feature_addr pe a en rf : remote_feature pe a = Some (en, rf) -> re_addr en = fa_ent a /\ fa_feat a = Some (rf_id rf).
+Proof.
+  unfold remote_feature, find_rent. destruct (find _ (p_ents pe)) as [en'|] eqn:He; [|discriminate].
+  destruct (fa_feat a) as [f|]; [|discriminate]. destruct (find _ (re_feats en')) as [rf'|] eqn:Hf; [|discriminate].
+  intros H. injection H as <- <-. apply find_some in He. destruct He as [_ He]. apply eqb_eaddr_eq in He.
+  apply find_some in Hf. destruct Hf as [_ Hf]. apply N.eqb_eq in Hf. split; [exact He | rewrite Hf; reflexivity].
+Qed.
+
+Section Par.
+  Variables (s0 : st) (d : dgram) (lf0 : lfeat) (r : N).
+  Hypothesis Hq : quiet_body (d_body d) = true.
+  Hypothesis Hr : d_ref d = Some r.
+  Hypothesis Hl : local_feature s0 (d_dst d) = Some lf0.
+
+  Definition e0 := lf_ent lf0.
+  Definition f0 := lf_id lf0.
+  Definition data_d : N := match d_body d with BResult e => e | BCmd _ pl => pl_val pl end.
+  Definition res_d : bool := is_result_body (d_body d).
+  Definition fsrc : N := match fa_feat (d_src d) with Some x => x | None => 0%N end.
+  (* an invocation as the operation reports it: the peer is blanked, everything else is fixed by d *)
+  Definition binv (cb : N) : obs := OInvoke cb e0 f0 r 0 (fa_ent (d_src d)) fsrc data_d.
+
+  (* does an arrival on connection p deliver (connected, source announced, reply accepted)? *)
+  Definition del (p : N) : bool :=
+    match find_peer s0 p with
+    | Some pe =>
+        match remote_feature pe (d_src d) with
+        | Some (en, rf) => match delivers s0 pe en rf lf0 d with Some _ => true | None => false end
+        | None => false
+        end
+    | None => false
+    end.
+
+  Definition R (s : st) : Prop := frame s = frame s0 /\ sig s = sig s0.
+
+  Lemma R_lookup s : R s -> exists lf, local_feature s (d_dst d) = Some lf /\ psig lf = psig lf0.
+  Proof.
+    intros [Hfr Hsig]. assert (Hle : lents s = lents s0) by (change (snd (frame s) = snd (frame s0)); rewrite Hfr; reflexivity).
+    unfold local_feature in *. rewrite Hle. destruct (existsb _ (lents s0)); [|discriminate].
+    unfold find_lfeat in *. destruct (fa_feat (d_dst d)) as [f|]; [|discriminate].
+    unfold sig in Hsig. symmetry in Hsig. exact (find_sig _ _ _ _ _ Hsig Hl).
+  Qed.
+
+  Lemma psig_fields lf : psig lf = psig lf0 -> lf_ent lf = e0 /\ lf_id lf = f0.
+  Proof.
+    intros H. split.
+    - change (fst (fst (fst (psig lf))) = fst (fst (fst (psig lf0)))). rewrite H. reflexivity.
+    - change (snd (fst (fst (psig lf))) = snd (fst (fst (psig lf0)))). rewrite H. reflexivity.
+  Qed.
+
+  Lemma delivers_stable s pe en rf lf : psig lf = psig lf0 -> delivers s pe en rf lf d = delivers s0 pe en rf lf0 d.
+  Proof.
+    intros Hp. destruct (psig_fields lf Hp) as [E1 E2]. unfold delivers. rewrite Hr.
+    destruct (d_body d) as [e|c pl]; [reflexivity|]. destruct c; try reflexivity.
+    rewrite !accepted_reply. assert (Hn : is_nm lf = is_nm lf0) by (unfold is_nm, is_feat; rewrite E1, E2; reflexivity).
+    rewrite Hn. destruct (is_nm lf0); [|reflexivity]. destruct pl; reflexivity.
+  Qed.
+
+  Lemma delivers_shape s pe en rf lf x : delivers s pe en rf lf d = Some x -> x = (r, data_d, res_d).
+  Proof.
+    unfold delivers, data_d, res_d. rewrite Hr. destruct (d_body d) as [e|c pl].
+    - intros H. injection H as <-. reflexivity.
+    - destruct c; try discriminate. destruct (accepted _ _ _ _ _ _ _); [|discriminate]. intros H. injection H as <-. reflexivity.
+  Qed.
+
+  Lemma find_peer_frame s p : R s -> find_peer s p = find_peer s0 p.
+  Proof.
+    intros [Hfr _]. assert (Hpe : peers s = peers s0) by (change (fst (frame s) = fst (frame s0)); rewrite Hfr; reflexivity).
+    unfold find_peer. rewrite Hpe. reflexivity.
+  Qed.
+
+  Lemma blank_invokes lf p en rf L :
+    lf_ent lf = e0 -> lf_id lf = f0 -> re_addr en = fa_ent (d_src d) -> fa_feat (d_src d) = Some (rf_id rf) ->
+    map blank (map (mk_invoke lf r p en rf data_d) L) = map binv L.
+  Proof.
+    intros E1 E2 E3 E4. rewrite map_map. apply map_ext. intros cb. unfold mk_invoke, binv, blank, fsrc.
+    rewrite E1, E2, E3, E4. reflexivity.
+  Qed.
+
+  Lemma ev_arr s p : R s ->
+    R (fst (inbound_v repaired s p d)) /\
+    view_q (fst (inbound_v repaired s p d)) e0 f0 = view_q s e0 f0 /\
+    (if del p
+     then map blank (inv (snd (inbound_v repaired s p d))) =
+            map binv (view_r s e0 f0 r) ++ (if res_d then map binv (view_q s e0 f0) else []) /\
+          view_r (fst (inbound_v repaired s p d)) e0 f0 r = []
+     else inv (snd (inbound_v repaired s p d)) = [] /\
+          view_r (fst (inbound_v repaired s p d)) e0 f0 r = view_r s e0 f0 r).
+  Proof.
+    intros HR. unfold inbound_v, del. rewrite (find_peer_frame s p HR).
+    destruct (find_peer s0 p) as [pe|] eqn:Hp0; [|repeat split; try reflexivity; apply HR].
+    assert (Hp : find_peer s (p_ski pe) = Some pe).
+    { rewrite (find_peer_frame s _ HR). pose proof (find_peer_ski _ _ _ Hp0) as Hk. rewrite Hk. exact Hp0. }
+    assert (HR' : R (fst (process_cmd repaired s pe d))).
+    { destruct HR as [Hfr Hsig]. split; [rewrite frame_process_cmd_quiet by exact Hq; exact Hfr | rewrite sig_process_cmd; exact Hsig]. }
+    split; [exact HR'|].
+    destruct (remote_feature pe (d_src d)) as [[en rf]|] eqn:Hsrc.
+    2:{ unfold process_cmd. rewrite Hsrc. cbn [fst snd]. repeat split; reflexivity. }
+    destruct (R_lookup s HR) as [lf [Hl' Hps]]. destruct (psig_fields lf Hps) as [E1 E2].
+    destruct (remote_feature_addr _ _ _ _ Hsrc) as [E3 E4].
+    pose proof (process_cmd_handled s pe en rf lf d Hp Hsrc Hl') as Hh.
+    pose proof (found_local _ _ _ Hl') as Hf. unfold found in Hf. rewrite E1, E2 in Hf. fold e0 f0 in Hf.
+    rewrite (delivers_stable s pe en rf lf Hps) in Hh.
+    destruct (delivers s0 pe en rf lf0 d) as [x|] eqn:Hd.
+    - pose proof (delivers_shape _ _ _ _ _ _ Hd) as ->. unfold handled in Hh. cbn [fst snd] in Hh.
+      destruct Hh as [[V1 V2] Hi]. split; [apply V2|]. split.
+      + rewrite Hi, map_app. pose proof (find_peer_ski _ _ _ Hp0) as Hk.
+        rewrite (blank_invokes lf (p_ski pe) en rf _ E1 E2 E3 E4).
+        unfold view_r, view_q. rewrite Hf. destruct res_d; [|reflexivity].
+        rewrite (blank_invokes lf (p_ski pe) en rf _ E1 E2 E3 E4). reflexivity.
+      + rewrite V1. unfold is_key. rewrite E1, E2. fold e0 f0. rewrite eqb_eaddr_refl, !N.eqb_refl. reflexivity.
+    - unfold handled in Hh. cbn [fst snd] in Hh. destruct Hh as [[V1 V2] Hi]. split; [apply V2|]. split; [exact Hi | apply V1].
+  Qed.
+
+  Lemma ev_reg s cb : R s ->
+    R (fst (late_reg s d cb)) /\
+    view_q (fst (late_reg s d cb)) e0 f0 = view_q s e0 f0 /\
+    inv (snd (late_reg s d cb)) = [] /\
+    view_r (fst (late_reg s d cb)) e0 f0 r =
+      if memN cb (view_r s e0 f0 r) then view_r s e0 f0 r else view_r s e0 f0 r ++ [cb].
+  Proof.
+    intros HR. destruct (R_lookup s HR) as [lf [Hl' Hps]]. destruct (psig_fields lf Hps) as [E1 E2].
+    destruct (local_feature_key _ _ _ Hl') as [K1 K2]. rewrite E1 in K1. rewrite E2 in K2. fold e0 in K1. fold f0 in K2.
+    pose proof (found_local _ _ _ Hl') as Hf. unfold found in Hf. rewrite E1, E2 in Hf. fold e0 f0 in Hf.
+    unfold late_reg. rewrite Hr, K1, K2. unfold add_resp_cb. rewrite find_lfeat_find, Hf.
+    assert (Hv : view_r s e0 f0 r = match assoc_N r (lf_rcb lf) with Some l => l | None => [] end).
+    { unfold view_r. rewrite Hf. reflexivity. }
+    rewrite <- Hv. destruct (memN cb (view_r s e0 f0 r)); cbn [fst snd].
+    - repeat split; try reflexivity; apply HR.
+    - split; [|split; [|split]].
+      + destruct HR as [Hfr Hsig]. split; [exact Hfr|]. rewrite sig_upd_lfeat by (intros x; reflexivity). exact Hsig.
+      + rewrite view_q_upd by (intros x; split; reflexivity). rewrite eqb_eaddr_refl, N.eqb_refl. cbn [andb].
+        rewrite Hf. unfold view_q. rewrite Hf. reflexivity.
+      + reflexivity.
+      + rewrite view_r_upd by (intros x; split; reflexivity). rewrite eqb_eaddr_refl, N.eqb_refl. cbn [andb].
+        rewrite Hf. cbn [set_rcb lf_rcb]. unfold lookup. cbn [assoc_N]. rewrite N.eqb_refl. reflexivity.
+  Qed.
+
+  (* ---- the operation on the list of callbacks pending for (e0, f0, r) ---- *)
+  Fixpoint arun (P q : list N) (l : list ev) : list N * list obs :=
+    match l with
+    | [] => (P, [])
+    | EArr p :: t =>
+        if del p
+        then let '(P1, o) := arun [] q t in (P1, (map binv P ++ (if res_d then map binv q else [])) ++ o)
+        else arun P q t
+    | EReg cb :: t => arun (if memN cb P then P else P ++ [cb]) q t
+    end.
+
+  Lemma run_evs_arun l : forall s, R s ->
+    map blank (inv (snd (run_evs repaired s d l))) = snd (arun (view_r s e0 f0 r) (view_q s e0 f0) l) /\
+    view_r (fst (run_evs repaired s d l)) e0 f0 r = fst (arun (view_r s e0 f0 r) (view_q s e0 f0) l).
+  Proof.
+    induction l as [|e t IH]; intros s HR; [split; reflexivity|]. cbn [run_evs arun]. destruct e as [p|cb]; cbn [run_ev].
+    - destruct (ev_arr s p HR) as [HR1 [Vq Hc]].
+      destruct (inbound_v repaired s p d) as [s1 o1]. cbn [fst snd] in *. specialize (IH s1 HR1).
+      destruct (run_evs repaired s1 d t) as [s2 o2]. cbn [fst snd] in *. rewrite inv_app, map_app.
+      destruct (del p).
+      + destruct Hc as [H1 H2]. rewrite H2, Vq in IH. destruct (arun [] (view_q s e0 f0) t) as [P1 o]. cbn [fst snd] in *.
+        destruct IH as [I1 I2]. rewrite H1, I1. split; [reflexivity | exact I2].
+      + destruct Hc as [H1 H2]. rewrite H2, Vq in IH. rewrite H1. exact IH.
+    - destruct (ev_reg s cb HR) as [HR1 [Vq [Hi Hv]]].
+      destruct (late_reg s d cb) as [s1 o1]. cbn [fst snd] in *. specialize (IH s1 HR1).
+      destruct (run_evs repaired s1 d t) as [s2 o2]. cbn [fst snd] in *. rewrite inv_app, map_app, Hi.
+      rewrite Hv, Vq in IH. exact IH.
+  Qed.
+End Par.
+
+(* ---- every order of the events gives the same multiset ---- *)
+Lemma flat_map_perm {A B} (f : A -> list B) l l' : Permutation l l' -> Permutation (flat_map f l) (flat_map f l').
+Proof.
+  induction 1 as [|x l l' _ IH|x y l|l l1 l2 _ IH1 _ IH2]; cbn [flat_map].
+  - apply perm_nil.
+  - apply Permutation_app_head. exact IH.
+  - rewrite !app_assoc. apply Permutation_app_tail. apply Permutation_app_comm.
+  - eapply perm_trans; eassumption.
+Qed.
+
+Lemma filter_perm_length {A} (f : A -> bool) l l' : Permutation l l' -> length (filter f l) = length (filter f l').
+Proof.
+  induction 1 as [|x l l' _ IH|x y l|l l1 l2 _ IH1 _ IH2]; cbn [filter].
+  - reflexivity.
+  - destruct (f x); cbn [length]; rewrite IH; reflexivity.
+  - destruct (f x); destruct (f y); reflexivity.
+  - congruence.
+Qed.
+
+Section Abstract.
+  Variables (s0 : st) (d : dgram) (lf0 : lfeat) (r : N).
+  Notation arun' := (arun s0 d lf0 r).
+  Notation binv' := (binv d lf0 r).
+  Notation del' := (del s0 d lf0).
+  Definition resq (q : list N) : list obs := if res_d d then map binv' q else [].
+  Definition ndel (l : list ev) : nat := length (filter del' (arrivals l)).
+
+  Lemma arun_perm l : forall P q,
+    NoDup (regs l) -> (forall cb, In cb (regs l) -> ~ In cb P) ->
+    Permutation (snd (arun' P q l) ++ map binv' (fst (arun' P q l)))
+                (map binv' (P ++ regs l) ++ concat (repeat (resq q) (ndel l))).
+  Proof.
+    induction l as [|e t IH]; intros P q Hnd Hfresh.
+    - cbn. rewrite !app_nil_r. apply Permutation_refl.
+    - destruct e as [p|cb]; cbn [arun regs arrivals flat_map app].
+      + fold (regs t). fold (arrivals t). unfold ndel. cbn [arrivals flat_map app filter]. fold (arrivals t).
+        destruct (del' p) eqn:Hd.
+        * specialize (IH [] q Hnd (fun _ _ H => H)). cbn [app] in IH.
+          destruct (arun' [] q t) as [P1 o]. cbn [fst snd length repeat concat] in *.
+          fold (ndel t). fold (resq q). rewrite <- !app_assoc. rewrite IH. rewrite map_app.
+          rewrite <- !app_assoc. apply Permutation_app_head.
+          rewrite !app_assoc. apply Permutation_app_tail. apply Permutation_app_comm.
+        * fold (ndel t). apply IH; assumption.
+      + fold (regs t). fold (arrivals t). cbn [regs flat_map app] in Hnd, Hfresh. fold (regs t) in Hnd, Hfresh.
+        assert (Hm : memN cb P = false).
+        { destruct (memN cb P) eqn:E; [|reflexivity]. apply memN_In in E. exfalso. apply (Hfresh cb); [left; reflexivity | exact E]. }
+        rewrite Hm. inversion Hnd as [|? ? Hni Hnd']; subst.
+        assert (Hf' : forall cb', In cb' (regs t) -> ~ In cb' (P ++ [cb])).
+        { intros cb' Hin Hc. apply in_app_or in Hc. destruct Hc as [Hc|[Hc|[]]].
+          - apply (Hfresh cb'); [right; exact Hin | exact Hc].
+          - subst cb'. exact (Hni Hin). }
+        unfold ndel. cbn [arrivals flat_map app]. fold (arrivals t). fold (ndel t).
+        rewrite (IH (P ++ [cb]) q Hnd' Hf'). rewrite <- app_assoc. apply Permutation_refl.
+  Qed.
+
+  Lemma arun_last pf l : del' pf = true -> forall P q, fst (arun' P q (l ++ [EArr pf])) = [].
+  Proof.
+    intros Hd. induction l as [|e t IH]; intros P q; cbn [app arun].
+    - rewrite Hd. reflexivity.
+    - destruct e as [p|cb]; [|apply IH]. destruct (del' p); [|apply IH].
+      specialize (IH [] q). destruct (arun' [] q (t ++ [EArr pf])) as [P1 o]. exact IH.
+  Qed.
+
+  Lemma regs_snoc_arr l p : regs (l ++ [EArr p]) = regs l.
+  Proof. unfold regs. rewrite flat_map_app. cbn. apply app_nil_r. Qed.
+End Abstract.
+
+(* The model runs an overlapping operation in the order "arrivals, registration, closing arrival".
+   Lookup + spawn + delete of the callbacks of a counter is one critical section, so what really
+   happens is SOME order of these events; for a result or data reply, registrations of distinct
+   callbacks not pending for the counter, and a delivering closing arrival, every order yields the
+   same multiset of (peer-blanked) invocations — each callback pending before or registered during
+   the operation exactly once, each result callback once per delivering arrival — and leaves
+   nothing pending for the counter. *)
+Theorem par_any_interleaving s d lf r l l' pf :
+  quiet_body (d_body d) = true -> d_ref d = Some r -> local_feature s (d_dst d) = Some lf ->
+  del s d lf pf = true ->
+  NoDup (regs l) -> (forall cb, In cb (regs l) -> ~ In cb (view_r s (lf_ent lf) (lf_id lf) r)) ->
+  Permutation l l' ->
+  Permutation (map blank (inv (snd (run_evs repaired s d (l ++ [EArr pf])))))
+              (map blank (inv (snd (run_evs repaired s d (l' ++ [EArr pf]))))) /\
+  view_r (fst (run_evs repaired s d (l ++ [EArr pf]))) (lf_ent lf) (lf_id lf) r = [] /\
+  view_r (fst (run_evs repaired s d (l' ++ [EArr pf]))) (lf_ent lf) (lf_id lf) r = [].
+Proof.
+  intros Hq Hr Hl Hd Hnd Hfresh Hperm.
+  assert (HR : R s s) by (split; reflexivity).
+  assert (Hnd' : NoDup (regs l')) by (eapply Permutation_NoDup; [apply flat_map_perm; exact Hperm | exact Hnd]).
+  assert (Hfresh' : forall cb, In cb (regs l') -> ~ In cb (view_r s (lf_ent lf) (lf_id lf) r)).
+  { intros cb Hin. apply Hfresh. eapply Permutation_in; [apply Permutation_sym, flat_map_perm; exact Hperm | exact Hin]. }
+  destruct (run_evs_arun s d lf r Hq Hr Hl (l ++ [EArr pf]) s HR) as [A1 A2].
+  destruct (run_evs_arun s d lf r Hq Hr Hl (l' ++ [EArr pf]) s HR) as [B1 B2].
+  unfold e0, f0 in A1, A2, B1, B2.
+  pose proof (arun_last s d lf r pf l Hd (view_r s (lf_ent lf) (lf_id lf) r) (view_q s (lf_ent lf) (lf_id lf))) as La.
+  pose proof (arun_last s d lf r pf l' Hd (view_r s (lf_ent lf) (lf_id lf) r) (view_q s (lf_ent lf) (lf_id lf))) as Lb.
+  split; [|split; [rewrite A2; exact La | rewrite B2; exact Lb]].
+  rewrite A1, B1.
+  pose proof (arun_perm s d lf r (l ++ [EArr pf]) (view_r s (lf_ent lf) (lf_id lf) r) (view_q s (lf_ent lf) (lf_id lf))) as Pa.
+  pose proof (arun_perm s d lf r (l' ++ [EArr pf]) (view_r s (lf_ent lf) (lf_id lf) r) (view_q s (lf_ent lf) (lf_id lf))) as Pb.
+  rewrite regs_snoc_arr in Pa, Pb. specialize (Pa Hnd Hfresh). specialize (Pb Hnd' Hfresh').
+  rewrite La in Pa. rewrite Lb in Pb. cbn [map] in Pa, Pb. rewrite app_nil_r in Pa, Pb.
+  rewrite Pa, Pb.
+  assert (Hn : ndel s d lf (l ++ [EArr pf]) = ndel s d lf (l' ++ [EArr pf])).
+  { unfold ndel. apply filter_perm_length. apply flat_map_perm. apply Permutation_app_tail. exact Hperm. }
+  rewrite Hn. apply Permutation_app_tail. apply Permutation_map. apply Permutation_app_head.
+  apply flat_map_perm. exact Hperm.
+Qed.
+
+(* the same for the operation itself: what ParArrive reports is what any interleaving of its
+   arrivals and its registration, followed by the closing arrival, reports *)
+Definition late_evs (late : option N) : list ev := match late with Some cb => [EReg cb] | None => [] end.
+
+Lemma regs_arrivals_only ps : regs (map EArr ps) = [].
+Proof. induction ps as [|p ps IH]; [reflexivity | exact IH]. Qed.
+
+Lemma par_op_any_interleaving s ps d late pf lf r l' :
+  quiet_body (d_body d) = true -> d_ref d = Some r -> local_feature s (d_dst d) = Some lf ->
+  del s d lf pf = true ->
+  (forall cb, late = Some cb -> ~ In cb (view_r s (lf_ent lf) (lf_id lf) r)) ->
+  Permutation (map EArr ps ++ late_evs late) l' ->
+  Permutation (inv (snd (step s (ParArrive ps d late pf))))
+              (map blank (inv (snd (run_evs repaired s d (l' ++ [EArr pf]))))).
+Proof.
+  intros Hq Hr Hl Hd Hfresh Hperm.
+  assert (Hregs : regs (map EArr ps ++ late_evs late) = match late with Some cb => [cb] | None => [] end).
+  { unfold regs. rewrite flat_map_app. fold (regs (map EArr ps)). rewrite regs_arrivals_only. destruct late; reflexivity. }
+  assert (Hst : snd (step s (ParArrive ps d late pf)) =
+                par_obs (snd (run_evs repaired s d ((map EArr ps ++ late_evs late) ++ [EArr pf])))).
+  { unfold step. cbn [step_v]. unfold par_events. rewrite <- app_assoc. unfold late_evs.
+    destruct (run_evs repaired s d _); reflexivity. }
+  rewrite Hst, inv_par_obs.
+  apply (par_any_interleaving s d lf r (map EArr ps ++ late_evs late) l' pf Hq Hr Hl Hd).
+  - rewrite Hregs. destruct late; repeat constructor. intros [].
+  - rewrite Hregs. intros cb Hin. destruct late as [cb0|]; [|destruct Hin]. destruct Hin as [<-|[]]. apply Hfresh. reflexivity.
+  - exact Hperm.
 Qed.
